@@ -270,6 +270,8 @@ def stage_producers(ctx, stage_body):
             events.append((bid, [(fn_key(c['path']), t['loc'])]))
         elif not c and t.get('fop') is not None:
             derefs = ' '.join(tt['callee']['path'] for _, tt in stage_body.calls(r'as core::ops::Deref>::deref$') if tt.get('callee'))
+            # a registry that is a `const` array is named by the constant the pointer is read from
+            derefs += ' ' + ' '.join(str(x[3]) for x in walk(stage_body.expr(t['fop'])) if x[0] == 'const' and x[2] is None)
             if 'LANGUAGE_BASED_TOKEN_PARSER' in derefs:
                 events.append((bid, [(fn_key(f), t['loc']) for f in lang]))
             elif 'TOKEN_REGEX_PARSER' in derefs:
